@@ -4,7 +4,9 @@
  * (no assumed vector contracts).  memcpy/memmove are contract models (vf.h): every range
  * obligation "inside the string's storage" is decided for all sizes.
  */
+#ifndef VF_G_sswap      /* (swap copies whole objects of constant size: CBMC's own memcpy keeps the contents) */
 #define VF_MODEL_MEMCPY
+#endif
 #define VF_KEEP_TWO
 #ifdef VF_S_WIDE
 #define VF_KEEP_UNIT 4
